@@ -1,93 +1,172 @@
 #!/venv/bin/python
-"""Confirm a seeded breaking change and run the 20 checks against it.
+"""Confirm seeded breaking changes and run the 20 checks against them.
 
-usage: seed_eval.py <patch.diff> <demo.py> [--skip-confirm]
+usage:
+  seed_eval.py confirm <seed_dir>...      # demo passes clean, patch applies, 652 baseline tests pass, demo fails patched
+  seed_eval.py detect  <seed_dir>...      # which checks fire on the patched tree (quick tier)
+  seed_eval.py matrix                     # detect over /verif/seeded/*, writes seeded/MATRIX.json and MATRIX.md
 
-1. confirmation in a scratch worktree under /tmp (removed afterwards):
-   demo passes on the clean tree, patch applies, 652 baseline tests still pass,
-   demo fails on the patched tree;
-2. detection: the patch is applied to /repo (git apply), every check is run in
-   quick tier without touching the committed evidence, /repo is restored
-   (git checkout -- .) in a finally block.
-Prints one JSON object.
+A seed dir holds patch.diff, demo.py and (after confirmation) meta.json.
+Everything runs in scratch git worktrees of /repo under /tmp which are removed
+afterwards; /repo's working tree is never modified.  The checks are pointed at
+the scratch tree with --repo and write their replay files to a scratch --outdir,
+so the committed evidence is not touched.
 """
 
 import json
 import os
+import re
 import shutil
 import subprocess
 import sys
 import tempfile
+from concurrent.futures import ThreadPoolExecutor
 
 VERIF = os.path.dirname(os.path.dirname(os.path.abspath(__file__)))
 PY = "/venv/bin/python"
+PIDS = [f"C{i:02d}" for i in range(1, 21)]
 
 
-def sh(cmd, cwd=None, timeout=900):
-    p = subprocess.run(cmd, cwd=cwd, capture_output=True, text=True, timeout=timeout)
+def sh(cmd, cwd=None, timeout=1800, env=None):
+    e = dict(os.environ)
+    if env:
+        e.update(env)
+    p = subprocess.run(cmd, cwd=cwd, capture_output=True, text=True, timeout=timeout, env=e)
     return p.returncode, p.stdout + p.stderr
 
 
-def confirm(patch, demo):
+class Worktree:
+    def __enter__(self):
+        self.dir = tempfile.mkdtemp(prefix="seval_", dir="/tmp")
+        os.rmdir(self.dir)
+        rc, o = sh(["git", "-C", "/repo", "worktree", "add", "-q", "--detach", self.dir, "HEAD"])
+        if rc:
+            raise RuntimeError("worktree: " + o)
+        return self.dir
+
+    def __exit__(self, *a):
+        sh(["git", "-C", "/repo", "worktree", "remove", "--force", self.dir])
+        shutil.rmtree(self.dir, ignore_errors=True)
+        sh(["git", "-C", "/repo", "worktree", "prune"])
+
+
+def confirm(sdir):
+    patch, demo = os.path.join(sdir, "patch.diff"), os.path.join(sdir, "demo.py")
     out = {}
-    wt = tempfile.mkdtemp(prefix="seval_", dir="/tmp")
-    os.rmdir(wt)
-    rc, o = sh(["git", "-C", "/repo", "worktree", "add", "-q", "--detach", wt, "HEAD"])
-    if rc:
-        return {"error": "worktree: " + o}
-    try:
-        rc, o = sh([PY, demo], cwd=wt)
+    with Worktree() as wt:
+        env = {"PYTHONPATH": wt, "PYTHONDONTWRITEBYTECODE": "1"}
+        rc, o = sh([PY, demo], cwd=wt, env=env)
         out["demo_clean_rc"] = rc
+        if rc:
+            out["demo_clean_tail"] = o.strip().splitlines()[-3:]
         rc, o = sh(["git", "-C", wt, "apply", patch])
         out["apply_rc"] = rc
         if rc:
             out["apply_err"] = o[-300:]
+            out["confirmed"] = False
             return out
-        rc, o = sh([PY, os.path.join(VERIF, "tools", "baseline_check.py"), wt])
+        rc, o = sh([PY, os.path.join(VERIF, "tools", "baseline_check.py"), wt], env=env)
         out["baseline_rc"] = rc
-        out["baseline"] = o.strip().splitlines()[0] if o.strip() else ""
-        rc, o = sh([PY, demo], cwd=wt)
+        out["baseline"] = o.strip().splitlines()[:4] if o.strip() else []
+        rc, o = sh([PY, demo], cwd=wt, env=env)
         out["demo_patched_rc"] = rc
-        out["demo_patched_tail"] = o.strip().splitlines()[-1:] if o.strip() else []
-    finally:
-        sh(["git", "-C", "/repo", "worktree", "remove", "--force", wt])
-        shutil.rmtree(wt, ignore_errors=True)
-    out["confirmed"] = out.get("demo_clean_rc") == 0 and out.get("baseline_rc") == 0 and out.get("demo_patched_rc") not in (0, None)
+        out["demo_patched_tail"] = o.strip().splitlines()[-2:] if o.strip() else []
+    out["confirmed"] = (
+        out.get("demo_clean_rc") == 0 and out.get("baseline_rc") == 0 and out.get("demo_patched_rc") not in (0, None)
+    )
     return out
 
 
-def detect(patch):
+def detect(sdir, tier="quick"):
+    patch = os.path.join(sdir, "patch.diff")
     res = {}
-    rc, o = sh(["git", "-C", "/repo", "status", "--porcelain", "--untracked-files=no"])
-    if o.strip():
-        return {"error": "/repo is not clean"}
-    rc, o = sh(["git", "-C", "/repo", "apply", patch])
-    if rc:
-        return {"error": "apply to /repo failed: " + o[-200:]}
-    try:
-        for i in range(1, 21):
-            pid = f"C{i:02d}"
-            rc, o = sh([os.path.join(VERIF, "check"), pid, "--tier", "quick", "--no-evidence"], cwd=VERIF)
-            if rc != 0:
-                lines = [l.strip() for l in o.splitlines() if l.strip().startswith(("C", "ANALYSIS-ERROR")) and (" unyt/" in l or "ANALYSIS" in l)]
-                res[pid] = {"rc": rc, "first": lines[:3]}
-    finally:
-        sh(["git", "-C", "/repo", "checkout", "--", "."])
-        # replay files written by the runs are scratch
-        rp = os.path.join(VERIF, "evidence", "replays")
-        for f in os.listdir(rp):
-            os.remove(os.path.join(rp, f))
+    with Worktree() as wt:
+        rc, o = sh(["git", "-C", wt, "apply", patch])
+        if rc:
+            return {"error": "apply failed: " + o[-200:]}
+        outdir = tempfile.mkdtemp(prefix="sevalout_", dir="/tmp")
+        try:
+            def one(pid):
+                return pid, sh(
+                    [os.path.join(VERIF, "check"), pid, "--tier", tier, "--no-evidence", "--repo", wt, "--outdir", outdir],
+                    cwd=VERIF,
+                )
+
+            with ThreadPoolExecutor(8) as ex:
+                for pid, (rc, o) in ex.map(one, PIDS):
+                    if rc != 0:
+                        lines = []
+                        for l in o.splitlines():
+                            s = l.strip()
+                            if re.match(r"C\d\d-R", s) or s.startswith("ANALYSIS-ERROR"):
+                                lines.append(s[:260])
+                        res[pid] = {"rc": rc, "reports": lines[:4]}
+        finally:
+            shutil.rmtree(outdir, ignore_errors=True)
     return res
 
 
+def load_meta(sdir):
+    p = os.path.join(sdir, "meta.json")
+    if os.path.exists(p):
+        with open(p, encoding="utf-8") as f:
+            return json.load(f)
+    return {}
+
+
 def main():
-    patch, demo = os.path.abspath(sys.argv[1]), os.path.abspath(sys.argv[2])
-    out = {"patch": patch}
-    if "--skip-confirm" not in sys.argv:
-        out["confirm"] = confirm(patch, demo)
-    out["detected_by"] = detect(patch)
-    print(json.dumps(out, indent=1, ensure_ascii=False))
+    mode = sys.argv[1]
+    if mode == "confirm":
+        for d in sys.argv[2:]:
+            d = os.path.abspath(d)
+            print(json.dumps({"seed": d, "confirm": confirm(d)}, indent=1, ensure_ascii=False))
+    elif mode == "detect":
+        for d in sys.argv[2:]:
+            d = os.path.abspath(d)
+            print(json.dumps({"seed": d, "detected_by": detect(d)}, indent=1, ensure_ascii=False))
+    elif mode == "matrix":
+        root = os.path.join(VERIF, "seeded")
+        seeds = sorted(x for x in os.listdir(root) if os.path.isdir(os.path.join(root, x)))
+        with ThreadPoolExecutor(4) as ex:
+            dets = list(ex.map(lambda s: detect(os.path.join(root, s)), seeds))
+        rows = []
+        for s, det in zip(seeds, dets):
+            meta = load_meta(os.path.join(root, s))
+            target = meta.get("property", s[:3])
+            fired = sorted(p for p, v in det.items() if isinstance(v, dict) and v.get("rc") == 1)
+            errs = sorted(p for p, v in det.items() if isinstance(v, dict) and v.get("rc") == 2)
+            rows.append(
+                {
+                    "seed": s,
+                    "property": target,
+                    "what": meta.get("what", ""),
+                    "caught_by_own_check": target in fired,
+                    "violation_from": fired,
+                    "analysis_error_from": errs,
+                    "reports": {p: det[p]["reports"][:2] for p in fired + errs},
+                }
+            )
+        with open(os.path.join(root, "MATRIX.json"), "w", encoding="utf-8") as f:
+            json.dump(rows, f, indent=1, ensure_ascii=False)
+        with open(os.path.join(root, "MATRIX.md"), "w", encoding="utf-8") as f:
+            f.write("| seed | breaks | caught by its own check | VIOLATION from | ANALYSIS-ERROR from | change |\n|---|---|---|---|---|---|\n")
+            for r in rows:
+                f.write(
+                    f"| {r['seed']} | {r['property']} | {'yes' if r['caught_by_own_check'] else 'NO'} | "
+                    f"{' '.join(r['violation_from']) or '-'} | {' '.join(r['analysis_error_from']) or '-'} | {r['what']} |\n"
+                )
+        n = len(rows)
+        own = sum(r["caught_by_own_check"] for r in rows)
+        anyc = sum(bool(r["violation_from"]) for r in rows)
+        print(f"seeds={n} caught_by_own_check={own} caught_by_any_check={anyc}")
+        for r in rows:
+            if not r["caught_by_own_check"]:
+                print("  missed:", r["seed"], "fired:", r["violation_from"], "errors:", r["analysis_error_from"])
+    else:
+        print(__doc__)
+        return 2
+    return 0
 
 
 if __name__ == "__main__":
-    main()
+    sys.exit(main())
